@@ -373,4 +373,20 @@ CLAIMS = {
                      "graphs)",
         "note": "no unbounded claim; the oracle (40 lines) is trusted; Python 3.12 bytecode only.",
     },
+    "C07": {
+        "category": "proof",
+        "text": "Unbounded proof (nested loop invariants over sets, z3/cvc5) on the real _GoalsManager: the constructor makes the "
+                "root goals the current goals of the (fresh) archive, and update() preserves the frontier invariant - the "
+                "archive's uncovered objectives are exactly the current goals, and every structural child of every covered goal "
+                "is covered or current - never loses a goal (old current goals are covered or still current), only grows the "
+                "covered set and leaves current and covered goals disjoint. Hence a goal becomes current as soon as a chain of "
+                "covered goals leads from a root goal to it.",
+        "note": "the goal graph itself (_BranchFitnessGraph._build_graph: every dependency of a registered predicate is a "
+                "registered predicate, construction never fails, every goal reachable from a root goal) depends on the CDG and on "
+                "the exclusion re-linking of the instrumentation and is covered only by the bounded stand-in (real "
+                "instrumentation, goal pool, archive and manager on 4 modules with the 'no cover' marker on every single line, "
+                "thorough: every pair), never counted as proved; get_structural_children and root_branches are abstracted by "
+                "uninterpreted CH/ROOTS; the CoverageArchive contracts are those proved under C13; termination of update() is not "
+                "proved.",
+    },
 }
